@@ -583,7 +583,25 @@ def _unzip(m, c):
     return Tup([Seq([x.fields[0] for x in xs]), Seq([x.fields[1] for x in xs])])
 
 
+def _hkey(m, x):
+    x = m.strip(x)
+    if isinstance(x, NDT) and not is_sym(x.day) and not is_sym(x.sec):
+        return ("ndt", x.day, x.sec)
+    if isinstance(x, Str):
+        return ("str", x.s)
+    if isinstance(x, int) and not isinstance(x, bool):
+        return ("int", x)
+    return None
+
+
 def set_from_items(m, items):
+    keys = [_hkey(m, x) for x in items]
+    if items and all(k is not None for k in keys):      # concrete hashable items: plain de-duplication
+        seen, out = set(), []
+        for k, x in zip(keys, items):
+            if k not in seen:
+                seen.add(k); out.append(m.strip(x) if isinstance(x, Ref) else x)
+        return SetV(out)
     out = []
     for x in items:
         dup = False
@@ -1205,3 +1223,28 @@ def _windows(m, c):
 @model("slice::iter::rev")
 def _noop(m, c):
     return c.args[0]
+
+
+@model("Range::contains", "RangeInclusive::contains", "RangeFrom::contains", "RangeTo::contains", "RangeToInclusive::contains")
+def _range_contains(m, c):
+    rg = m.strip(c.args[0])
+    x = m.strip(c.args[1])
+    nm = rg.name if isinstance(rg, Struct) else ("RangeInclusive" if rg.inclusive else "Range")
+    f = rg.fields if isinstance(rg, Struct) else (rg.lo, rg.hi)
+    cmpf = (lambda op, a, b: f_cmp(op, a, b)) if isinstance(x, F) else (lambda op, a, b: i_cmp(op, a, b))
+    if nm == "Range": return b_and(cmpf("le", f[0], x), cmpf("lt", x, f[1]))
+    if nm == "RangeInclusive": return b_and(cmpf("le", f[0], x), cmpf("le", x, f[1]))
+    if nm == "RangeFrom": return cmpf("le", f[0], x)
+    if nm == "RangeTo": return cmpf("lt", x, f[0])
+    if nm == "RangeToInclusive": return cmpf("le", x, f[0])
+    raise Unsupported("range contains")
+
+
+@model("RangeInclusive::start", "RangeInclusive::end")
+def _ri_bounds(m, c):
+    r = c.args[0]
+    rg = m.strip(r)
+    k = 0 if c.cal.method == "start" else 1
+    if isinstance(rg, Struct):
+        return Ref(r.cell, r.path + (("f", k),), False)
+    return m.temp_ref((rg.lo, rg.hi)[k])
